@@ -161,9 +161,14 @@ class Emitter:
             elif isinstance(x, list):
                 for y in x: self.val_refs(y if isinstance(y, tuple) else (), acc)
 
-    def instr_refs(self, I, acc):
+    def instr_refs(self, I, acc, taken=None):
         for k, v in I.items():
             if k in ('src', 'op', 'dst'): continue
+            if taken is not None and not (k == 'callee' and I['op'] in ('call', 'invoke')):
+                if isinstance(v, tuple): self.val_refs(v, taken)
+                elif isinstance(v, list):
+                    for y in v:
+                        if isinstance(y, tuple): self.val_refs(y, taken)
             if isinstance(v, tuple): self.val_refs(v, acc)
             elif isinstance(v, list):
                 for y in v:
@@ -174,7 +179,7 @@ class Emitter:
         work = [n for n, f in m.funcs.items() if f.blocks is not None and self.roots_re.search(n)]
         if not work: raise IRError('no root functions match')
         self.roots = list(work)
-        seenf = set(); seeng = set()
+        seenf = set(); seeng = set(); self.addr_taken = set()
         while work:
             n = work.pop()
             n = self.resolve_alias(n)
@@ -185,14 +190,14 @@ class Emitter:
                 if f.blocks is None: continue
                 acc = set()
                 for _, ins in f.blocks:
-                    for I in ins: self.instr_refs(I, acc)
+                    for I in ins: self.instr_refs(I, acc, self.addr_taken)
                 work.extend(acc)
             elif n in m.globals:
                 if n in seeng: continue
                 seeng.add(n)
                 g = m.globals[n]
                 if g.init is not None:
-                    acc = set(); self.val_refs(g.init, acc); work.extend(acc)
+                    acc = set(); self.val_refs(g.init, acc); work.extend(acc); self.addr_taken |= acc
             else:
                 raise IRError('reference to unknown symbol @' + n)
         self.rfuncs = sorted(seenf); self.rglobals = sorted(seeng)
@@ -436,6 +441,9 @@ class Emitter:
         o += protos
         o += bodies
         return '\n'.join(o) + '\n'
+
+    def taken(self):
+        return self.addr_taken
 
     def cname(self, n):
         if self.roots_re.search(n) or n.startswith('verif_'): return san(n)
@@ -857,7 +865,7 @@ class FuncEmitter:
             cands = []
             for n in E.rfuncs:
                 f = E.m.funcs[n]
-                if f.blocks is None or f.vararg: continue
+                if f.blocks is None or f.vararg or n not in E.taken(): continue
                 s2 = (E.ctype(f.ret), tuple(E.ctype(t) for t, pn, a in f.params))
                 if s2 == sig: cands.append(n)
             w('switch (%s) {' % fp)
